@@ -174,6 +174,75 @@ fn run_client(rng: &mut Rng, can_fd: bool, reply_bytes: &[u8], trailing: Vec<(Ve
     (Run { partial_cut, result, written: wire.all_written(), wire, sched_fp: fp }, got, end, cap)
 }
 
+/// The expected-GUID clause: a client that connects through an ADDRESS carrying `guid=` must only accept a server whose
+/// OK line carries that GUID. Needs a real listening socket (the expected GUID comes from the address), so: a unix
+/// listener under the temp dir, a raw server thread, the library's own connect path and executor thread.
+fn guid_case(ctx: &mut Ctx, index: u64, rng: &mut Rng) {
+    use crate::harness::realsock::raw_server_handshake_with;
+    use std::os::unix::net::UnixListener;
+    ctx.count("evaluations", 1);
+    ctx.count("class:expected-guid", 1);
+    let path = std::env::temp_dir().join(format!("zbverif-{}-{}.sock", std::process::id(), index));
+    let _ = std::fs::remove_file(&path);
+    let listener = match UnixListener::bind(&path) {
+        Ok(l) => l,
+        Err(e) => {
+            ctx.problem(&format!("cannot bind {path:?}: {e}"));
+            return;
+        }
+    };
+    let expected: Option<&str> = if rng.chance(3, 4) { Some(GUID) } else { None };
+    let (server_guid, valid, label): (String, bool, &str) = match rng.below(5) {
+        0 | 1 => (GUID.to_string(), true, "same"),
+        2 => (OTHER_GUID.to_string(), true, "other-valid"),
+        3 => (GUID[..31].to_string(), false, "31-hex"),
+        _ => (format!("{}g", &GUID[..31]), false, "non-hex"),
+    };
+    let sg = server_guid.clone();
+    let server = std::thread::spawn(move || {
+        let _ = listener.set_nonblocking(false);
+        if let Ok((mut s, _)) = listener.accept() {
+            let _ = s.set_read_timeout(Some(std::time::Duration::from_secs(60)));
+            let _ = raw_server_handshake_with(&mut s, true, &sg);
+            // stay around for a moment so that the client's build can finish
+            std::thread::sleep(std::time::Duration::from_millis(20));
+        }
+    });
+    let addr = match expected {
+        Some(g) => format!("unix:path={},guid={g}", path.display()),
+        None => format!("unix:path={}", path.display()),
+    };
+    let (tx, rx) = std::sync::mpsc::channel();
+    let a2 = addr.clone();
+    std::thread::spawn(move || {
+        let r = zbus::block_on(async { zbus::connection::Builder::address(a2.as_str())?.p2p().build().await });
+        let _ = tx.send(r.map(|_| ()).map_err(|e| e.to_string()));
+    });
+    let result = match rx.recv_timeout(std::time::Duration::from_secs(120)) {
+        Ok(r) => r,
+        Err(_) => {
+            ctx.problem(&format!("C17 expected-guid case {index}: client build did not return within 120 s"));
+            let _ = std::fs::remove_file(&path);
+            return;
+        }
+    };
+    let _ = server.join();
+    let _ = std::fs::remove_file(&path);
+    let should = valid && expected.map_or(true, |g| g == server_guid);
+    ctx.count(&format!("class:guid-{label}-{}", if expected.is_some() { "expected" } else { "unconstrained" }), 1);
+    ctx.distinct(fnv(&format!("guid|{label}|{}", expected.is_some())) ^ index);
+    let desc = json!({"address": addr, "server_sent_guid": server_guid, "client": format!("{result:?}")});
+    match (should, result.is_ok()) {
+        (true, false) => ctx.finding(index, "refuses-proper-server", "expected-guid", label, desc),
+        (false, true) => ctx.finding(index, "succeeds-without-proper-ok", if valid { "guid-differs-from-expected" } else { "invalid-guid" }, label, desc),
+        _ => {
+            if index % 40 == 0 {
+                ctx.sample(desc);
+            }
+        }
+    }
+}
+
 pub fn run(ctx: &mut Ctx) {
     let t = templates();
     let files = fd_files();
@@ -364,5 +433,14 @@ pub fn run(ctx: &mut Ctx) {
     if ctx.args.shard == 0 {
         ctx.count("exhaustive_cases_total", total);
     }
-    let _ = OTHER_GUID;
+    // the expected-GUID clause over a real listening socket (not under Miri)
+    let mg = ctx.budget(if ctx.args.layer == "miri" { 0 } else { 200 }, 4_000);
+    for j in 0..mg {
+        let i = 3_000_000_000 + j;
+        if !ctx.want(i) {
+            continue;
+        }
+        let mut rng = ctx.rng(i);
+        ctx.guarded(i, "expected-guid", || json!({}), |ctx| guid_case(ctx, i, &mut rng));
+    }
 }
